@@ -20,7 +20,7 @@ func init() {
 		ID: "C15", Level: "exploration", DesignRef: "DESIGN.md section 4 C15",
 		Rule: "one case = a pool of evolved genomes whose weights / mutation numbers / trait parameters were fuzzed (normal, 1e+-200, subnormal, " +
 			"integer-valued, long mantissas), every registered scalar activation type on hidden nodes, nil traits, disabled and recurrent " +
-			"genes; per genome: plain and YAML encodings, Organism.MarshalBinary / UnmarshalBinary and gob; per case: Population.Write + " +
+			"genes; per genome: plain and YAML encodings, Organism.MarshalBinary / UnmarshalBinary (one by one, and a whole batch marshalled before any is restored) and gob; per case: Population.Write + " +
 			"ReadPopulation (3-60 genomes), modular genomes in YAML, fast solver WriteModel + ReadFMNSModel (5 input vectors, forward and " +
 			"recursive activation, incl. modules), synthetic experiments Write + Read with all derived statistics. All comparisons by " +
 			"independent snapshots, bit-exact. evaluations = round trips. A round trip is non-trivial if the artefact contains a disabled " +
@@ -33,7 +33,7 @@ func init() {
 			return 9600
 		},
 		Run: runC15,
-		Required: []string{"roundtrip.plain", "roundtrip.yaml", "roundtrip.yaml_modular", "roundtrip.organism_binary", "roundtrip.organism_gob",
+		Required: []string{"roundtrip.plain", "roundtrip.yaml", "roundtrip.yaml_modular", "roundtrip.organism_binary", "roundtrip.organism_binary_batched", "roundtrip.organism_gob",
 			"roundtrip.population", "roundtrip.solver_model", "roundtrip.solver_model_modular", "roundtrip.experiment", "weights.extreme"},
 	})
 }
@@ -142,6 +142,9 @@ func runC15(c *Ctx, idx int) {
 		}
 	}
 	if c.Violated() {
+		return
+	}
+	if !c15OrganismBatch(c, r, fuzzed, snaps) {
 		return
 	}
 	// modular genome in YAML
@@ -281,6 +284,48 @@ func c15Organism(c *Ctx, r *rand.Rand, g *genetics.Genome, s *SnapGenome) bool {
 		return false
 	}
 	return check("gob", &back2)
+}
+
+// c15OrganismBatch marshals all organisms first and restores them afterwards (as a caller collecting the binary forms of a
+// whole species does): every binary form must still restore its own organism when others were produced after it
+func c15OrganismBatch(c *Ctx, r *rand.Rand, genomes []*genetics.Genome, snaps []*SnapGenome) bool {
+	type item struct {
+		data []byte
+		copy []byte
+		fit  float64
+		gen  int
+	}
+	items := make([]item, len(genomes))
+	for i, g := range genomes {
+		items[i].fit, items[i].gen = math.Abs(fuzzFloat(r)), r.Intn(1000)
+		org, _ := genetics.NewOrganism(items[i].fit, g, items[i].gen)
+		data, err := org.MarshalBinary()
+		if err != nil {
+			c.Violate("organism-error", map[string]interface{}{"genome": snaps[i]}, "MarshalBinary failed: %v", err)
+			return false
+		}
+		items[i].data = data
+		items[i].copy = append([]byte{}, data...)
+	}
+	c.Eval(len(items))
+	c.Count("roundtrip.organism_binary_batched", len(items))
+	for i, it := range items {
+		detail := map[string]interface{}{"genome": snaps[i], "fitness": fmt.Sprint(it.fit), "generation": it.gen, "position_in_batch": i, "batch": len(items)}
+		if !bytes.Equal(it.data, it.copy) {
+			c.Violate("organism-differs/binary-batch", detail, "the binary form of organism #%d changed while %d further organisms were marshalled", i, len(items)-1-i)
+			return false
+		}
+		back := &genetics.Organism{}
+		if err := back.UnmarshalBinary(it.data); err != nil {
+			c.Violate("organism-error", detail, "UnmarshalBinary of organism #%d of a batch failed: %v", i, err)
+			return false
+		}
+		if back.Genotype == nil || diffGenomes(snaps[i], snapGenome(back.Genotype)) != "" || fbits(back.Fitness) != fbits(it.fit) || back.Generation != it.gen {
+			c.Violate("organism-differs/binary-batch", detail, "organism #%d of a batch marshalled before it was restored does not restore itself", i)
+			return false
+		}
+	}
+	return true
 }
 
 func c15Population(c *Ctx, r *rand.Rand, genomes []*genetics.Genome, snaps []*SnapGenome) bool {
